@@ -10,6 +10,7 @@ variant of the haplotype, and its local ancestry there is the haplotype's label.
 namespace C04
 open Transform
 
+/-- the per-haplotype implementation (`Haplotype.transform`: allele comparison, then `all` over the haplotype's variants) answers exactly the specification: strand `k` of sample `s` carries the haplotype iff it carries the listed allele at every one of its variants -/
 theorem single_eq_spec (g : Geno) (h : Hap) (s k : Nat) : single g h s k = carries g h s k :=
   Transform.single_eq_spec g h s k
 
@@ -24,10 +25,12 @@ theorem single_eq_set (g : Geno) (haps : List Hap) (h : Hap) (hh : h ∈ haps) (
     single g h s k = setwise g haps h s k := by
   rw [single_eq_spec, set_eq_spec g haps h hh]
 
+/-- the same with `--ancestry`: the single-haplotype implementation reports the haplotype iff every listed allele matches and the strand's local ancestry at every variant is the haplotype's ancestry label -/
 theorem singleAnc_eq_spec (ga : GenoA) (code : Option Nat) (h : Hap) (s k : Nat) :
     singleA ga code h s k = carriesA ga code h s k :=
   singleA_eq_spec ga code h s k
 
+/-- … and so does the vectorised set-wise implementation (`Haplotypes.transform` with `GenotypesAncestry`), for every haplotype of the set -/
 theorem setAnc_eq_spec (ga : GenoA) (code : Option Nat) (haps : List Hap) (h : Hap) (hh : h ∈ haps) (s k : Nat) :
     setwiseA ga code haps h s k = carriesA ga code h s k :=
   setwiseA_eq_spec ga code haps h hh s k
